@@ -144,6 +144,11 @@ func (a *Analysis) exprOf(st *State, fr *frame, v ssa.Value) *Expr {
 				return e
 			}
 		}
+		// states of an inlined helper carry its parameter bindings, so that
+		// they can be queried from the caller's analysis
+		if e, ok := st.env[v]; ok {
+			return e
+		}
 		return mkLeaf("param", x.Name(), x.Type())
 	case *ssa.FreeVar:
 		if fr != nil && fr.params != nil {
@@ -217,7 +222,7 @@ func (a *Analysis) step(st *State, fr *frame, in ssa.Instruction) {
 				a.bind(st, fr, x, st.load(xe, x.Type()))
 			}
 		case token.ARROW:
-			st.event("recv:" + chanName(xe))
+			st.event("recv:" + a.chanEventName(x.X, xe))
 			a.bind(st, fr, x, a.freshLeaf(st, fr, "val", x))
 		default:
 			a.bind(st, fr, x, mk("un", x.Type(), x.Op.String(), 0, xe))
@@ -303,7 +308,7 @@ func (a *Analysis) step(st *State, fr *frame, in ssa.Instruction) {
 			if ss.Send == nil {
 				continue
 			}
-			cn := chanName(a.exprOf(st, fr, ss.Chan))
+			cn := a.chanEventName(ss.Chan, a.exprOf(st, fr, ss.Chan))
 			st.event("offer:" + cn)
 			if a.EventArgs != nil {
 				if s := a.EventArgs(st, "offer:"+cn, []*Expr{a.exprOf(st, fr, ss.Send)}); s != "" {
@@ -377,7 +382,7 @@ func (a *Analysis) step(st *State, fr *frame, in ssa.Instruction) {
 		st.killClass("M:"+typeKey(x.Map.Type()), siteTok(fr, x))
 		st.event("mapupdate")
 	case *ssa.Send:
-		st.event("send:" + chanName(a.exprOf(st, fr, x.Chan)))
+		st.event("send:" + a.chanEventName(x.Chan, a.exprOf(st, fr, x.Chan)))
 	case *ssa.Go:
 		st.event("go:" + a.P.calleeDesc(x))
 		a.callEffects(st, fr, x, true)
@@ -720,6 +725,21 @@ func (a *Analysis) call(st *State, fr *frame, c *ssa.Call) {
 }
 
 // chanName names a channel term by the field or local it was loaded from.
+// chanEventName names the channel of an event: by its creation site's key
+// when the channel analysis knows it (chanflow.go), else by the term.
+func (a *Analysis) chanEventName(v ssa.Value, e *Expr) string {
+	n := chanName(e)
+	if strings.HasSuffix(n, ".C") || strings.HasSuffix(n, "[]") {
+		return n // timer channels and per-direction arrays keep the term's name
+	}
+	if isChanType(v.Type()) {
+		if k := a.P.chanKey(v); k != "" && !strings.Contains(k, "|") {
+			return k
+		}
+	}
+	return n
+}
+
 func chanName(e *Expr) string {
 	if e == nil {
 		return "?"
@@ -1571,28 +1591,46 @@ func (a *Analysis) shouldInlineMulti(c *ssa.Call, callee *ssa.Function) bool {
 	if callee.Parent() != nil {
 		return false
 	}
-	if n := a.P.Name(callee); knownFuncs[n] && !a.ForceInline[n] && (!knownInline[n] || len(callee.Blocks) == 1) {
-		return false // opaque by policy, or handled by single-block inlining
+	n := a.P.Name(callee)
+	if knownFuncs[n] && !a.ForceInline[n] {
+		if !knownInline[n] || len(callee.Blocks) == 1 {
+			return false // opaque by policy, or handled by single-block inlining
+		}
 	}
-	if a.NoInline != nil && a.NoInline[a.P.Name(callee)] {
+	if a.NoInline != nil && a.NoInline[n] {
 		return false
 	}
-	if len(a.stack) >= 3 || callee == a.Fn || len(callee.Blocks) == 0 || len(callee.Blocks) > 60 || callee.TypeParams().Len() > 0 {
+	static := a.P.inlinableHelper(callee)
+	if knownFuncs[n] {
+		// known functions analysed in context by policy: same shape limits
+		static = len(callee.Blocks) > 0 && len(callee.Blocks) <= 60 && callee.TypeParams().Len() == 0
+		if static {
+			allInstrs(callee, func(in ssa.Instruction) {
+				switch in.(type) {
+				case *ssa.Go, *ssa.Defer, *ssa.RunDefers:
+					static = false
+				}
+			})
+		}
+	}
+	if !static {
 		return false
 	}
+	dyn := len(a.stack) < maxHelperDepth && callee != a.Fn
 	for _, f := range a.stack {
 		if f == callee {
-			return false
+			dyn = false
 		}
 	}
-	ok := true
-	allInstrs(callee, func(in ssa.Instruction) {
-		switch in.(type) {
-		case *ssa.Go, *ssa.Defer, *ssa.RunDefers:
-			ok = false
+	if !dyn {
+		// a helper that is normally seen through its callers could not be
+		// analysed in this context: it has to be analysed on its own too
+		if a.P.declined == nil {
+			a.P.declined = map[*ssa.Function]bool{}
 		}
-	})
-	return ok
+		a.P.declined[callee] = true
+	}
+	return dyn
 }
 
 // inlineMulti analyses callee from the caller's state with its parameters
@@ -1628,10 +1666,19 @@ func (a *Analysis) inlineMulti(st *State, c *ssa.Call, callee *ssa.Function) ([]
 	sub.moduli = a.moduli
 	entry := st.clone()
 	entry.event("call:" + a.P.Name(callee))
+	for i, p := range callee.Params {
+		entry.env[p] = args[i]
+	}
 	sub.entry = entry
 	sub.Run()
 	if len(sub.Undecided) > 0 {
 		a.Undecided = append(a.Undecided, sub.Undecided...)
+	}
+	if a.record {
+		// the helper's instructions are part of this function's view
+		for in, sts := range sub.At {
+			a.At[in] = append(a.At[in], sts...)
+		}
 	}
 	var outs []*State
 	for _, r := range sub.Returns {
